@@ -369,16 +369,22 @@ def deserialise(data):
     return des.context
 
 
-def serialise(desc):
+def serialise(desc, prefill_len=0):
     from vc2_conformance.bitstream import BitstreamWriter, Serialiser, parse_stream
     from vc2_conformance.pseudocode.state import State
 
-    f = io.BytesIO()
+    # what the output file held before is not part of a description: every third description (by its size) is
+    # serialised into a rewound file object that still holds an older, LONGER stream; the bytes written are the
+    # bytes from the start of the file up to the writer's final position
+    old = b"\x42\x42\x43\x44\x10" + b"\xa5" * (prefill_len or 0) if prefill_len else b""
+    f = io.BytesIO(old)
+    f.seek(0)
     w = BitstreamWriter(f)
     with Serialiser(w, desc) as ser:
         parse_stream(ser, State())
     w.flush()
-    return f.getvalue()
+    end = f.tell()
+    return f.getvalue()[:end] if prefill_len else f.getvalue()
 
 
 def first_diff_bit(a, b):
@@ -474,7 +480,8 @@ def _roundtrip(data):
     ev["hvg"] = sorted(trace.limbs(v) for v in hv)
     ev["hvbits"] = max([v.bit_length() for v in hv] or [0])
     try:
-        out = serialise(desc)
+        out = serialise(desc, (len(data) + 64) if len(data) % 3 == 1 else 0)
+        ev["prefilled"] = len(data) % 3 == 1
     except MemoryError:
         raise
     except Exception as e:  # noqa
